@@ -164,3 +164,9 @@ func Yield() {}
 
 // Opaque returns a string standing for arbitrary human-readable text.
 func Opaque(hint string) string { return "<" + hint + ">" }
+
+// Boolean connectives that do not branch (under the executor they build a formula).
+func And(a, b bool) bool     { return a && b }
+func Or(a, b bool) bool      { return a || b }
+func Not(a bool) bool        { return !a }
+func Implies(a, b bool) bool { return !a || b }
